@@ -13,6 +13,7 @@ import sys
 VERIF = os.path.dirname(os.path.abspath(__file__))
 sys.path.insert(0, os.path.join(VERIF, 'pylib'))
 sys.path.insert(0, VERIF)
+sys.path.insert(0, os.path.join(VERIF, 'tools'))
 
 REGISTRY = {
     'C07': ('checks.prim', 'c07'), 'C08': ('checks.prim', 'c08'), 'C09': ('checks.prim', 'c09'),
@@ -42,6 +43,35 @@ def main():
         r = json.load(open(a.replay))
         cmd = r.get('replay', {}).get('cmd')
         print('replaying %s: %s' % (r['key'], r['detail'][:300]))
+        if r.get('replay', {}).get('script'):
+            # interactive harness: feed the recorded command script, show the decoded observations
+            import build as buildmod
+            import fixmsg
+            from runner import SAN_ENV
+            h = r['replay']['harness']
+            exe = buildmod.build('asan', [h])[h]
+            wd = '/dev/shm/fix8verif.replay.%d' % os.getpid()
+            os.makedirs(wd, exist_ok=True)
+            e = dict(os.environ)
+            e.update(SAN_ENV)
+            script = r['replay']['script']
+            p = subprocess.run([exe, '--dir', wd], input=('\n'.join(script) + '\nQUIT\n').encode('latin-1'), stdout=subprocess.PIPE, stderr=subprocess.PIPE, cwd=wd, env=e)
+            blocks = p.stdout.decode('latin-1').split('\n.\n')
+            for c_, b_ in zip(script, blocks):
+                if c_.startswith('IN '):
+                    c_ = 'IN ' + repr(fixmsg.M(bytes.fromhex(c_[3:])))
+                print('> ' + c_[:300])
+                for l in b_.splitlines():
+                    if l.startswith('W '):
+                        ms, rest = fixmsg.split_stream(bytes.fromhex(l[2:]))
+                        for m in ms:
+                            print('      OUT ' + repr(fixmsg.M(m))[:300])
+                    elif l:
+                        print('      ' + l[:300])
+            print(p.stderr.decode('latin-1')[-3000:])
+            import shutil
+            shutil.rmtree(wd, ignore_errors=True)
+            sys.exit(0)
         if not cmd:
             print('no command recorded; re-run: check.py %s --tier %s with VERIF_SEED=%s' % (r['property'], r['tier'], r['seed']))
             sys.exit(2)
